@@ -18,7 +18,8 @@ RULE = ("History monitor: for generators {white, red, alpha in {0.01,0.5,1,1.3,2
         "_numba_lfilter_cascade equals a per-section scipy.signal.lfilter cascade with carried "
         "state (1e-12).  Distinct by (generator, parameters, partition); non-trivial: >=2 requests.")
 ASSUMPTIONS = [
-    "mixing get_sample and get_series on one instance is not asserted (documented prefetch buffer)",
+    "mixing get_sample and NON-EMPTY get_series requests on one instance is not asserted (documented "
+    "prefetch buffer); a zero-length get_series(0) inside a get_sample run is: it must change nothing",
 ]
 DECIDING_COUNTERS = ["partition_histories", "twin_pairs", "delayed_twin_pairs", "get_sample_runs",
                      "interleaved_histories",
